@@ -341,9 +341,11 @@ impl RoutePattern {
             } = right;
 
             for (left, right) in segs_left.iter().zip(segs_right.iter()) {
+                //Literal segments are compared as they are when matching a route (percent decoded).
                 if !left.parameter
                     && !right.parameter
-                    && left.segment_str(pat_left.as_str()) != right.segment_str(pat_right.as_str())
+                    && !percent_decode_str(left.segment_str(pat_left.as_str()))
+                        .eq(percent_decode_str(right.segment_str(pat_right.as_str())))
                 {
                     return false;
                 }
